@@ -268,6 +268,11 @@ fn update_head(encoding: ContentEncoding, head: &mut ResponseHead) {
     head.headers_mut()
         .append(header::VARY, HeaderValue::from_static("accept-encoding"));
 
+    // a length announced by the handler describes the unencoded body; HTTP/1 drops it while
+    // chunking is enabled, but HTTP/2 and HTTP/1 responses to CONNECT / upgrade requests would
+    // forward it in front of the encoded body
+    head.headers_mut().remove(header::CONTENT_LENGTH);
+
     head.no_chunking(false);
 }
 
